@@ -154,7 +154,12 @@ class Slow(tuple):
         return (Slow, (tuple(self),))
 
 
+NONE_MODE = [False]
+
+
 def _enc(v):
+    if v is None and NONE_MODE[0]:          # example 0 of a deterministic upstream
+        return {'i': 0, 'k': 0}
     if isinstance(v, tuple) and len(v) == 2 and all(isinstance(x, int) for x in v):
         return {'i': int(v[0]), 'k': int(v[1])}
     return {'i': -9, 'k': -9}
@@ -227,8 +232,16 @@ def execute(par, hist, timeout=20.0, seed=None):
     # threads, OS-scheduled: sampling on top of the sequentialised model)
     slow = any(s['op'] == 'pf' and s['w'] >= 2 for s in hist)
 
+    # a third of the histories over a deterministic upstream: the value of
+    # example 0 is None (a legitimate example value, falsy, often used as a
+    # "missing" marker by careless code)
+    import zlib
+    NONE_MODE[0] = (not rand) and zlib.crc32(json.dumps(hist, sort_keys=True).encode()) % 3 == 0
+
     def fn(x):
         calls[x] += 1
+        if x == 0 and NONE_MODE[0]:
+            return None
         v = (x, calls[x] if rand else 0)
         return Slow(v) if slow else v
 
